@@ -19,8 +19,7 @@
 /*
  * e2fsck/region.c — the "which byte ranges of this EA block / inode body are already claimed" list pass 1 uses to find
  * overlapping extended-attribute names and values (check_ext_attr, check_ea_in_inode): region_allocate returns non-zero
- * and pass 1 raises PR_1_EA_ALLOC_COLLISION.  A false 0 hides an overlap (C02), a false 1 clears a healthy EA block and is
- * reported again... (C01).
+ * and pass 1 raises PR_1_EA_ALLOC_COLLISION.  A false 0 hides an overlap (C02); a false 1 makes e2fsck clear a healthy EA block (C01).
  *
  * ABSTRACT VIEW: a set of points; member(X) = some element has start <= X < end; observed at ONE arbitrary ghost point X.
  * well_formed: elements sorted by start, start < end, end_i < start_{i+1} (disjoint and not adjacent), all inside
